@@ -13,7 +13,10 @@ import (
 	"errors"
 	"fmt"
 	"math"
+	"net"
+	"net/url"
 	"os"
+	"path/filepath"
 	"runtime"
 	"sort"
 	"strconv"
@@ -22,6 +25,8 @@ import (
 	"time"
 
 	"github.com/twmb/franz-go/pkg/kmsg"
+	clientv3 "go.etcd.io/etcd/client/v3"
+	"go.etcd.io/etcd/server/v3/embed"
 
 	"github.com/KafScale/platform/pkg/broker"
 	metadatapb "github.com/KafScale/platform/pkg/gen/metadata"
@@ -81,7 +86,7 @@ func numName(prefix, s string) string {
 
 type faultStore struct {
 	metadata.Store
-	inner *metadata.InMemoryStore
+	inner metadata.Store
 	mu    sync.Mutex
 	fail  [6]bool // 0 put 1 delete 2 fetchGroup 3 commit 4 fetchOffset 5 metadata
 	// gate for the commit race: when armed the next CommitConsumerOffset blocks until released
@@ -150,7 +155,7 @@ func (f *faultStore) LookupConsumerOffset(ctx context.Context, group, topic stri
 	if f.take(4) {
 		return 0, "", false, errInjected
 	}
-	if l, ok := interface{}(f.inner).(offsetLookup); ok {
+	if l, ok := f.inner.(offsetLookup); ok {
 		return l.LookupConsumerOffset(ctx, group, topic, partition)
 	}
 	o, m, err := f.inner.FetchConsumerOffset(ctx, group, topic, partition)
@@ -167,7 +172,9 @@ func (f *faultStore) Metadata(ctx context.Context, topics []string) (*metadata.C
 
 type harness struct {
 	ctx     context.Context
-	inner   *metadata.InMemoryStore
+	inner   metadata.Store          // the store under test (in-memory or etcd), unwrapped
+	mem     *metadata.InMemoryStore // == inner in memory mode
+	etcd    *metadata.EtcdStore     // == inner in etcd mode
 	store   *faultStore
 	coord   *broker.GroupCoordinator
 	names   map[string]int // real member id -> k
@@ -177,6 +184,7 @@ type harness struct {
 	clients map[string]string // client token c<i> -> member id of its last join reply
 	keys    [][3]int64 // group idx, topic idx, partition
 	keySet  map[[3]int64]bool
+	groups  map[int]bool // group indices named by an op of this history (the dump looks these up in the store)
 }
 
 func newHarness() *harness {
@@ -193,10 +201,94 @@ func (h *harness) newCoordinator() {
 		&broker.CoordinatorConfig{CleanupInterval: 24 * time.Hour})
 }
 
-func (h *harness) reset() {
-	h.inner = metadata.NewInMemoryStore(metadata.ClusterMetadata{
-		Brokers: []protocol.MetadataBroker{{NodeID: 1, Host: "127.0.0.1", Port: 9092}},
-	})
+var (
+	etcdServer    *embed.Etcd
+	etcdEndpoints []string
+	etcdDir       string
+)
+
+// startEtcd starts one embedded etcd per harness process (offline, no fsync, temp dir).
+func startEtcd() error {
+	if etcdServer != nil {
+		return nil
+	}
+	dir, err := os.MkdirTemp("", "verif-c12-etcd-")
+	if err != nil {
+		return err
+	}
+	etcdDir = dir
+	cfg := embed.NewConfig()
+	cfg.Dir = dir
+	cfg.Logger = "zap"
+	cfg.LogLevel = "error"
+	cfg.LogOutputs = []string{filepath.Join(dir, "etcd.log")}
+	cfg.UnsafeNoFsync = true
+	mk := func() url.URL {
+		ln, err := net.Listen("tcp", "127.0.0.1:0")
+		if err != nil {
+			panic(err)
+		}
+		defer ln.Close()
+		u, _ := url.Parse("http://" + ln.Addr().String())
+		return *u
+	}
+	cfg.ListenClientUrls = []url.URL{mk()}
+	cfg.AdvertiseClientUrls = cfg.ListenClientUrls
+	cfg.ListenPeerUrls = []url.URL{mk()}
+	cfg.AdvertisePeerUrls = cfg.ListenPeerUrls
+	cfg.InitialCluster = cfg.InitialClusterFromName(cfg.Name)
+	e, err := embed.StartEtcd(cfg)
+	if err != nil {
+		return err
+	}
+	select {
+	case <-e.Server.ReadyNotify():
+	case <-time.After(20 * time.Second):
+		e.Server.Stop()
+		return errors.New("embedded etcd did not become ready")
+	}
+	etcdServer = e
+	etcdEndpoints = []string{"http://" + e.Clients[0].Addr().String()}
+	return nil
+}
+
+func stopEtcd() {
+	if etcdServer != nil {
+		etcdServer.Close()
+		os.RemoveAll(etcdDir)
+	}
+}
+
+func (h *harness) reset() { h.resetMode(false) }
+
+func (h *harness) resetMode(useEtcd bool) {
+	brokers := metadata.ClusterMetadata{Brokers: []protocol.MetadataBroker{{NodeID: 1, Host: "127.0.0.1", Port: 9092}}}
+	if h.etcd != nil {
+		_ = h.etcd.Close()
+		h.etcd = nil
+	}
+	h.mem = nil
+	if useEtcd {
+		if err := startEtcd(); err != nil {
+			fmt.Fprintln(os.Stderr, "etcd:", err)
+			os.Exit(3)
+		}
+		cli, err := clientv3.New(clientv3.Config{Endpoints: etcdEndpoints, DialTimeout: 5 * time.Second})
+		if err == nil {
+			_, _ = cli.Delete(h.ctx, "/kafscale/", clientv3.WithPrefix())
+			cli.Close()
+		}
+		es, err := metadata.NewEtcdStore(h.ctx, brokers, metadata.EtcdStoreConfig{Endpoints: etcdEndpoints})
+		if err != nil {
+			fmt.Fprintln(os.Stderr, "etcd store:", err)
+			os.Exit(3)
+		}
+		h.etcd = es
+		h.inner = es
+	} else {
+		h.mem = metadata.NewInMemoryStore(brokers)
+		h.inner = h.mem
+	}
 	h.store = &faultStore{Store: h.inner, inner: h.inner}
 	h.newCoordinator()
 	h.names = map[string]int{}
@@ -206,6 +298,7 @@ func (h *harness) reset() {
 	h.clients = map[string]string{}
 	h.keys = nil
 	h.keySet = map[[3]int64]bool{}
+	h.groups = map[int]bool{}
 }
 
 func (h *harness) mName(id string) string {
@@ -339,6 +432,9 @@ func (h *harness) dump() string {
 			numName("ptype", g.ProtocolType), g.RebalanceTimeout/time.Millisecond, dl, strings.Join(mem, ";"), strings.Join(asg, ";")))
 	}
 	for gi := 1; gi < len(groupNames); gi++ {
+		if !h.groups[gi] {
+			continue
+		}
 		pg, err := h.inner.FetchConsumerGroup(h.ctx, groupNames[gi])
 		if err != nil || pg == nil {
 			continue
@@ -644,10 +740,15 @@ func (h *harness) opMeta(f []string) string {
 		}
 		topics = append(topics, mt)
 	}
-	h.inner.Update(metadata.ClusterMetadata{
+	cm := metadata.ClusterMetadata{
 		Brokers: []protocol.MetadataBroker{{NodeID: 1, Host: "127.0.0.1", Port: 9092}},
 		Topics:  topics,
-	})
+	}
+	if h.mem != nil {
+		h.mem.Update(cm)
+	} else {
+		h.etcd.VerifSetMetadata(cm)
+	}
 	return "ok"
 }
 
@@ -678,6 +779,9 @@ func (h *harness) opRace(f []string) string {
 	}
 	if bar < 5 || bar+1 >= len(f) {
 		return "bad-op"
+	}
+	if g, err := strconv.Atoi(f[1]); err == nil {
+		h.groups[g] = true
 	}
 	req := h.commitRequest(f[:bar])
 	h.store.mu.Lock()
@@ -741,6 +845,14 @@ func (h *harness) exec(f []string) (res string) {
 			res = "panic"
 		}
 	}()
+	switch f[0] {
+	case "join", "sync", "hb", "leave", "commit", "fetch", "load":
+		if len(f) > 1 {
+			if g, err := strconv.Atoi(f[1]); err == nil {
+				h.groups[g] = true
+			}
+		}
+	}
 	switch {
 	case f[0] == "join" && len(f) >= 8:
 		return h.opJoin(f)
@@ -763,7 +875,11 @@ func (h *harness) exec(f []string) (res string) {
 		}
 		d := time.Duration(ms) * time.Millisecond
 		h.coord.VerifShift(d)
-		h.inner.VerifShiftHeartbeats(d)
+		if h.mem != nil {
+			h.mem.VerifShiftHeartbeats(d)
+		} else {
+			h.etcd.VerifShiftHeartbeats(d)
+		}
 		return "ok"
 	case f[0] == "cleanup" && len(f) == 1:
 		h.coord.VerifCleanup()
@@ -791,6 +907,7 @@ func main() {
 	h := newHarness()
 	w := bufio.NewWriter(os.Stdout)
 	defer w.Flush()
+	defer stopEtcd()
 	sc := bufio.NewScanner(os.Stdin)
 	sc.Buffer(make([]byte, 1<<20), 1<<26)
 	for sc.Scan() {
@@ -799,7 +916,7 @@ func main() {
 			continue
 		}
 		if f[0] == "reset" {
-			h.reset()
+			h.resetMode(len(f) > 1 && f[1] == "etcd")
 			fmt.Fprintln(w, "reset")
 			w.Flush()
 			continue
